@@ -1,6 +1,7 @@
 SPECIFICATION Spec
 CONSTANTS
-  MaxRetry <- EnvMaxRetry
+  MaxRetryC <- EnvMaxRetryC
+  MaxRetryR <- EnvMaxRetryR
   MaxFail = 4
   MaxDepth = 1
   MaxKids = 0
